@@ -21,7 +21,7 @@ REPLAY = '''
 sys.path.insert(0, '/verif')
 import warnings; warnings.filterwarnings('ignore')
 from checks.c18 import concrete_run
-msg = concrete_run(%(nports)d, %(lat)d, %(sink_delay)d, %(reqs)r, %(init)r, %(variant)r)
+msg = concrete_run(%(nports)d, %(lat)d, %(sink_delay)d, %(reqs)r, %(init)r, %(variant)r, %(dws)r, %(scripts)r)
 if msg: reproduced(msg)
 '''
 
@@ -46,32 +46,58 @@ class SymStall:
     s.n += 1; b = z3.Bool(f"stall_{s.tag}_{s.n}")
     me = s
     class R:
-      def __gt__(self, o):
-        if me.stalls >= me.budget: return True
-        r = bool(SymBool(b))
-        if not r: me.stalls += 1
-        return r
+      val = None
+      def __gt__(self, o):          # one decision per drawn number, however often it is compared (rdy and val paths both compare it)
+        if self.val is None:
+          if me.stalls >= me.budget: self.val = True
+          else:
+            self.val = bool(SymBool(b))
+            if not self.val: me.stalls += 1
+        return self.val
     return R()
 
 
-def _classes():
+class ScriptedStall:
+  """replay: the stall decisions of the solver's model, in draw order (True = not stalled); afterwards never stalls.
+  Every finite pattern has positive probability for 0 < stall_prob < 1, so this is one possible random outcome."""
+  def __init__(s, script): s.script = list(script); s.i = 0
+  def random(s):
+    v = s.script[s.i] if s.i < len(s.script) else True
+    s.i += 1
+    return 1.0 if v else 0.0
+
+
+def _install_scripted(th, variant, scripts):
+  if variant == 'cl':
+    for i, st in enumerate(th.mem.req_stalls): st.stall_rgen = ScriptedStall(scripts[i] if i < len(scripts) else [])
+  else:
+    for i, st in enumerate(th.mem.req_stalls):
+      blk = [b for b in st._dsl.upblks if b.__name__ == 'up_rand'][0]
+      k = blk.__code__.co_freevars.index('stall_rgen')
+      blk.__closure__[k].cell_contents = ScriptedStall(scripts[i] if i < len(scripts) else [])
+
+
+def _classes(dw=32):
   from pymtl3.stdlib.mem.MemMsg import mk_mem_msg
-  return mk_mem_msg(8, 32, 32)
+  return mk_mem_msg(8, 32, dw)
 
 
-def _harness_rtl(nports, src_msgs, sink_msgs, lat, sink_delay, stall_prob):
+def _lw(dw): return (dw // 8 - 1).bit_length()      # width of the len field
+
+
+def _harness_rtl(nports, src_msgs, sink_msgs, lat, sink_delay, stall_prob, dws=None):
   """the stream (val/rdy, RTL-interface) variant: SourceRTL -> MagicMemoryRTL (RandomStall, InelasticDelayPipe) -> SinkRTL"""
   from pymtl3 import Component
   from pymtl3.stdlib.stream.SourceRTL import SourceRTL
   from pymtl3.stdlib.stream.SinkRTL import SinkRTL
   from pymtl3.stdlib.stream.magic_memory import MagicMemoryRTL
-  req_cls, resp_cls = _classes()
+  cls = [_classes(dw) for dw in (dws or [32] * nports)]
 
   class THR(Component):
     def construct(s):
-      s.srcs = [SourceRTL(req_cls, src_msgs[i], 0, 0) for i in range(nports)]
-      s.mem = MagicMemoryRTL(nports, [(req_cls, resp_cls)] * nports, stall_prob, lat)
-      s.sinks = [SinkRTL(resp_cls, sink_msgs[i], 0, sink_delay) for i in range(nports)]
+      s.srcs = [SourceRTL(cls[i][0], src_msgs[i], 0, 0) for i in range(nports)]
+      s.mem = MagicMemoryRTL(nports, cls, stall_prob, lat)
+      s.sinks = [SinkRTL(cls[i][1], sink_msgs[i], 0, sink_delay) for i in range(nports)]
       for i in range(nports):
         s.srcs[i].send //= s.mem.ifc[i].req
         s.mem.ifc[i].resp //= s.sinks[i].recv
@@ -79,28 +105,33 @@ def _harness_rtl(nports, src_msgs, sink_msgs, lat, sink_delay, stall_prob):
   return THR()
 
 
-def _install_stalls(th, variant):
+def _install_stalls(th, variant, budget=2):
   if variant == 'cl':
-    for i, st in enumerate(th.mem.req_stalls): st.stall_rgen = SymStall(i)
+    for i, st in enumerate(th.mem.req_stalls): st.stall_rgen = SymStall(i, budget)
   else:
     for i, st in enumerate(th.mem.req_stalls):
       blk = [b for b in st._dsl.upblks if b.__name__ == 'up_rand'][0]
       k = blk.__code__.co_freevars.index('stall_rgen')
-      blk.__closure__[k].cell_contents = SymStall(i)
+      blk.__closure__[k].cell_contents = SymStall(i, budget)
 
 
-def _harness(nports, src_msgs, sink_msgs, lat, sink_delay, stall_prob, variant='cl'):
-  if variant == 'rtl': return _harness_rtl(nports, src_msgs, sink_msgs, lat, sink_delay, stall_prob)
+def _harness(nports, src_msgs, sink_msgs, lat, sink_delay, stall_prob, variant='cl', keep=None, dws=None):
+  """keep: list that receives (response object, expected) for every response the CL sinks accept -- the consumer KEEPS the
+  objects it was handed, so that a later modification of a delivered response is seen"""
+  if variant == 'rtl': return _harness_rtl(nports, src_msgs, sink_msgs, lat, sink_delay, stall_prob, dws)
+  if keep is None: keep = []
+  def cmp_keep(a, b):
+    keep.append((a, b)); return a == b
   from pymtl3 import Component, connect
   from pymtl3.stdlib.mem.MagicMemoryCL import MagicMemoryCL
   from pymtl3.stdlib.test_utils import TestSinkCL, TestSrcCL
-  req_cls, resp_cls = _classes()
+  cls = [_classes(dw) for dw in (dws or [32] * nports)]
 
   class TH(Component):
     def construct(s):
-      s.srcs = [TestSrcCL(req_cls, src_msgs[i]) for i in range(nports)]
-      s.mem = MagicMemoryCL(nports, [(req_cls, resp_cls)] * nports, stall_prob, lat)
-      s.sinks = [TestSinkCL(resp_cls, sink_msgs[i], 0, sink_delay) for i in range(nports)]
+      s.srcs = [TestSrcCL(cls[i][0], src_msgs[i]) for i in range(nports)]
+      s.mem = MagicMemoryCL(nports, cls, stall_prob, lat)
+      s.sinks = [TestSinkCL(cls[i][1], sink_msgs[i], 0, sink_delay, cmp_fn=cmp_keep) for i in range(nports)]
       for i in range(nports):
         connect(s.srcs[i].send, s.mem.ifc[i].req)
         connect(s.mem.ifc[i].resp, s.sinks[i].recv)
@@ -108,22 +139,26 @@ def _harness(nports, src_msgs, sink_msgs, lat, sink_delay, stall_prob, variant='
   return TH()
 
 
-def concrete_run(nports, lat, sink_delay, reqs, init, variant='cl'):
+def concrete_run(nports, lat, sink_delay, reqs, init, variant='cl', dws=None, stall_scripts=None):
   """replay on the pristine library: reqs[port] = [(type, addr, len, data, opaque)], init = {addr: byte}.
   Tries stall probability 0 and 0.5 (stall decisions may only change WHEN responses arrive)."""
   from pymtl3 import DefaultPassGroup
-  req_cls, resp_cls = _classes()
+  dws = dws or [32] * nports
+  cls = [_classes(dw) for dw in dws]
   order = [(p, r) for k in range(max(len(x) for x in reqs)) for p, x in enumerate(reqs) for r in ([x[k]] if k < len(x) else [])]
-  for prob in (0, 0.5):
+  for prob in ((0, 0.5) if not stall_scripts else (0.5, 0, 0.5)):
     mem = dict(init)
     # the memory processes port 0 before port 1 in each cycle; with equal arrival this is request-index major order
     exp = [[] for _ in range(nports)]
     for p, (t, a, l, d, o) in order:
-      rl, rd = MS.py_step(mem, t, a, l, d)
-      exp[p].append(resp_cls(t, o, 0, rl, rd))
-    th = _harness(nports, [[req_cls(t, o, a, l, d) for (t, a, l, d, o) in x] for x in reqs], exp, lat, sink_delay, prob, variant)
+      rl, rd = MS.py_step(mem, t, a, l, d, dws[p])
+      exp[p].append(cls[p][1](t, o, 0, rl, rd))
+    keep = []
+    th = _harness(nports, [[cls[p][0](t, o, a, l, d) for (t, a, l, d, o) in x] for p, x in enumerate(reqs)], exp, lat, sink_delay, prob, variant, keep, dws)
     th.elaborate()
     for a, b in init.items(): th.mem.mem.mem[a] = b
+    if stall_scripts and prob == 0.5:
+      _install_scripted(th, variant, stall_scripts); stall_scripts = None      # first round: the model's stall decisions; later rounds: the library's own generator
     th.apply(DefaultPassGroup()); th.sim_reset()
     n = 0
     try:
@@ -131,6 +166,8 @@ def concrete_run(nports, lat, sink_delay, reqs, init, variant='cl'):
     except Exception as e:
       return f"MagicMemory{variant.upper()} nports={nports} latency={lat} sink_delay={sink_delay} stall_prob={prob} requests {reqs}: {type(e).__name__}: {str(e)[:300]}"
     if not th.done(): return f"MagicMemoryCL nports={nports} latency={lat} sink_delay={sink_delay} stall_prob={prob}: not all responses arrived after {n} cycles"
+    for got, want in keep:
+      if got != want: return f"MagicMemory{variant.upper()} nports={nports} latency={lat} sink_delay={sink_delay} stall_prob={prob} requests {reqs}: a response the consumer had accepted as {want} reads {got} at the end of the run (the delivered object was modified afterwards)"
     for a in set(mem) | set(init):
       if th.mem.mem.mem[a] != mem.get(a, 0): return f"final image byte {a:#x} = {th.mem.mem.mem[a]:#x}, sequential specification {mem.get(a, 0):#x} (requests {reqs})"
   return None
@@ -146,12 +183,13 @@ def item_mem(it):
   Bits = sp.setup((FB, MCLm, MFLm))
   MFLm.read_bytearray_bits = FB.read_bytearray_bits; MFLm.write_bytearray_bits = FB.write_bytearray_bits
   from pymtl3 import DefaultPassGroup
-  req_cls, resp_cls = _classes()
   fam, nreq, lat, nports, sink_delay, stalls = it['family'], it['nreq'], it['lat'], it['nports'], it['sink_delay'], it['stalls']
   variant = it.get('variant', 'cl')
+  dws = it.get('dws') or [32] * nports
+  cls = [_classes(dw) for dw in dws]
   import pymtl3.stdlib.stream.magic_memory as SMM
   core.install(SMM.__dict__)
-  name = f"mem-{variant}/{fam}/ports={nports}/reqs={nreq}/lat={lat}/sinkdelay={sink_delay}/stalls={'sym' if stalls else 'none'}"
+  name = f"mem-{variant}/{fam}/ports={nports}/reqs={nreq}/lat={lat}/sinkdelay={sink_delay}/stalls={'sym' if stalls else 'none'}" + (f"/data_widths={dws}" if it.get('dws') else '')
   res = Result(name)
   types = MS.FAMILIES[fam]
   V = []      # per port list of (t, a, l, d, o)
@@ -160,11 +198,12 @@ def item_mem(it):
     vs = []
     for i in range(nreq):
       tag = f"p{p}r{i}"
-      t = z3.BitVec(tag + '_type', 4); a = z3.BitVec(tag + '_addr', 32); l = z3.BitVec(tag + '_len', 2); d = z3.BitVec(tag + '_data', 32); o = z3.BitVec(tag + '_opq', 8)
+      t = z3.BitVec(tag + '_type', 4); a = z3.BitVec(tag + '_addr', 32); l = z3.BitVec(tag + '_len', _lw(dws[p])); d = z3.BitVec(tag + '_data', dws[p]); o = z3.BitVec(tag + '_opq', 8)
       vs.append((t, a, l, d, o))
       cons.append(z3.Or(*[t == x for x in types]))
-      cons.append(z3.ULT(a, WINDOW - 3))
+      cons.append(z3.ULT(a, WINDOW - (dws[p] // 8 - 1)))
       cons.append(z3.Implies(z3.Or(*[t == x for x in MS.AMOS]), l == 0))        # atomics are word operations
+      if it.get('len0'): cons.append(l == 0)                                   # deep-interleaving configurations: full-width accesses only
     V.append(vs)
   arr0 = z3.Array('mem0', z3.BitVecSort(32), z3.BitVecSort(8))
   # specification: the memory processes port 0 before port 1 each cycle; with both sources offering from cycle 0 and
@@ -177,22 +216,25 @@ def item_mem(it):
       m = cls()
       for k, v in kw.items(): getattr(m, k)._uint = v if isinstance(v, int) else core.from_bv(v)
       return m
-    srcs = [[mk(req_cls, type_=t, opaque=o, addr=a, len=l, data=d) for (t, a, l, d, o) in V[p]] for p in range(nports)]
+    srcs = [[mk(cls[p][0], type_=t, opaque=o, addr=a, len=l, data=d) for (t, a, l, d, o) in V[p]] for p in range(nports)]
     # expected stream: the specification applied in the specified processing order (must exist BEFORE the sinks are built:
     # a sink constructed with an empty list reports done at once)
     arr = arr0; exp = [[] for _ in range(nports)]
     for p, i in order:
       t, a, l, d, o = V[p][i]
-      arr, rlen, rdata = MS.z3_step(arr, t, a, l, d)
-      exp[p].append(mk(resp_cls, type_=t, opaque=o, test=0, len=rlen, data=rdata))
-    th = _harness(nports, srcs, exp, lat, sink_delay, 0.5 if stalls else 0, variant)
+      arr, rlen, rdata = MS.z3_step(arr, t, a, l, d, dws[p])
+      exp[p].append(mk(cls[p][1], type_=t, opaque=o, test=0, len=rlen, data=rdata))
+    keep = []
+    th = _harness(nports, srcs, exp, lat, sink_delay, 0.5 if stalls else 0, variant, keep, dws)
     th.elaborate()
     store = ArrayBytes(1 << 20, arr0)
     th.mem.mem.mem = store
-    if stalls: _install_stalls(th, variant)
+    if stalls: _install_stalls(th, variant, it.get('stall_budget', 2))
     th.apply(DefaultPassGroup()); th.sim_reset()
     n = 0
     while not th.done() and n < 60 + 20 * nreq * (lat + sink_delay + 2): th.sim_tick(); n += 1
+    for got, want in keep:      # the consumer kept the objects it was handed: they must still read what was accepted
+      if not bool(got == want): raise AssertionError("a response object handed to the consumer was modified afterwards")
     return th, n, store.arr, arr
 
   def leaf(pc, out, exc):
@@ -205,14 +247,22 @@ def item_mem(it):
         return
       m = sv.model(); g = lambda x: m.eval(x, model_completion=True).as_long()
       reqs = [[(g(t), g(a), g(l), g(d), g(o)) for (t, a, l, d, o) in V[p]] for p in range(nports)]
-      init = {k: g(z3.Select(arr0, z3.BitVecVal(k, 32))) for k in range(WINDOW + 4)}
+      init = {k: g(z3.Select(arr0, z3.BitVecVal(k, 32))) for k in range(WINDOW + 8)}
+      scripts = []
+      if stalls:
+        for p in range(nports):
+          k = 1; sc = []
+          while k <= 400:
+            sc.append(not z3.is_false(m.eval(z3.Bool(f"stall_{p}_{k}")))); k += 1
+          while sc and sc[-1]: sc.pop()
+          scripts.append(sc)
       rec['violations'].append(dict(key=f"MagicMemory{variant.upper()}:{fam}", what=f"{name}: {what}", speculative=speculative,
-                                    replay=REPLAY % dict(nports=nports, lat=lat, sink_delay=sink_delay, reqs=reqs, init=init, variant=variant)))
+                                    replay=REPLAY % dict(nports=nports, lat=lat, sink_delay=sink_delay, reqs=reqs, init=init, variant=variant, dws=dws, scripts=scripts)))
     if exc is not None:
       # an exception may stem from the byte-store stand-in (no buffer protocol): propose models with every address
       # alignment first (speculative: kept only if the replay on the real code reproduces), then the plain model
       alla = [v[1] for vs in V for v in vs]
-      distinct = [z3.Select(arr0, z3.BitVecVal(j, 32)) == 17 * j + 1 for j in range(WINDOW + 4)] + [v[3] == 0x11223344 + 0x01010101 * n_ for n_, v in enumerate(v for vs in V for v in vs)]
+      distinct = [z3.Select(arr0, z3.BitVecVal(j, 32)) == 17 * j + 1 for j in range(WINDOW + 4)] + [v[3] == (0x8877665511223344 + 0x01010101 * n_) % (1 << v[3].size()) for n_, v in enumerate(v for vs in V for v in vs)]
       for k in (1, 2, 3, 0): viol(f"{type(exc).__name__}: {str(exc)[:200]}", [z3.Extract(1, 0, a) == k for a in alla] + distinct, speculative=True)
       viol(f"{type(exc).__name__}: {str(exc)[:200]}"); return rec
     th, n, got, want = out
@@ -255,9 +305,21 @@ def main():
     add(family='amo_arith', nreq=2, lat=1, nports=1, sink_delay=2, stalls=False)
     add(family='amo_arith', nreq=1, lat=0, nports=1, sink_delay=0, stalls=True)
     add(family='amo_minmax', nreq=2, lat=1, nports=1, sink_delay=1, stalls=False)
-    add(family='rw', nreq=2, lat=1, nports=1, sink_delay=1, stalls=True, variant='rtl')
+    add(family='rw', nreq=2, lat=1, nports=1, sink_delay=1, stalls=True, variant='rtl', stall_budget=1)
     add(family='amo_arith', nreq=2, lat=0, nports=1, sink_delay=2, stalls=False, variant='rtl')
+    add(family='w', nreq=5, lat=2, nports=1, sink_delay=3, stalls=True, variant='rtl', len0=True, stall_budget=1)
+    add(family='w', nreq=4, lat=1, nports=1, sink_delay=2, stalls=True, variant='rtl', len0=True, stall_budget=1)
+    add(family='rw', nreq=1, lat=1, nports=2, sink_delay=0, stalls=False, variant='rtl', dws=[32, 64])
+    add(family='rw', nreq=1, lat=0, nports=2, sink_delay=1, stalls=False, dws=[64, 16])
   else:
+    add(family='w', nreq=5, lat=2, nports=1, sink_delay=3, stalls=True, variant='rtl', len0=True, stall_budget=2)
+    add(family='w', nreq=4, lat=1, nports=1, sink_delay=2, stalls=True, variant='rtl', len0=True, stall_budget=3)
+    add(family='w', nreq=6, lat=3, nports=1, sink_delay=4, stalls=True, variant='rtl', len0=True, stall_budget=1)
+    add(family='w', nreq=4, lat=2, nports=1, sink_delay=3, stalls=True, len0=True, stall_budget=2)
+    add(family='rw', nreq=2, lat=1, nports=2, sink_delay=0, stalls=False, variant='rtl', dws=[32, 64])
+    add(family='amo_arith', nreq=1, lat=0, nports=2, sink_delay=1, stalls=False, variant='rtl', dws=[64, 32])
+    add(family='rw', nreq=1, lat=0, nports=2, sink_delay=1, stalls=True, dws=[64, 16])
+    add(family='amo_minmax', nreq=1, lat=1, nports=2, sink_delay=0, stalls=False, dws=[16, 64])
     for fam in MS.FAMILIES:
       for lat in (0, 1, 3):
         add(family=fam, nreq=2, lat=lat, nports=1, sink_delay=0, stalls=True)
@@ -272,8 +334,8 @@ def main():
   for it, r in pmap(item_mem, items, item_timeout=1500 if tier == 'quick' else 6000):
     chk.absorb(it, r)
   chk.bounds = dict(configs=[i['name'] for i in items], window_bytes=WINDOW, requests_per_port='<= 2 (3 in one thorough configuration)', ports='1..2',
-                    stall_decisions='arbitrary booleans, at most 2 stalls per port')
-  chk.outside = ['more requests in flight than the bound', 'mem_nbytes boundaries', 'liveness under unbounded stalling', 'stream/magic_memory.py (RTL variant)',
+                    stall_decisions='arbitrary booleans, at most 2 stalled cycles per port (1 to 3 in the deep-interleaving configurations)')
+  chk.outside = ['more requests in flight than the bound', 'mem_nbytes boundaries', 'liveness under unbounded stalling',
                  'two ports with unequal source timing (processing order is then schedule dependent; only the equal-timing order is specified here)']
   chk.assumptions = ['Random.random() > p replaced by an arbitrary boolean', 'bytearray replaced by a z3 Array', 'atomic operations are word sized (len field 0)']
   chk.finish(rule="per configuration: fork-mode exploration of every path (request type decode x length x stall decisions); the real TestSinkCL compares every response "
